@@ -912,6 +912,24 @@ func (tr *gtTr) library(pkg, name string, c *ast.CallExpr, env *venv) ex {
 		}
 		fn := map[string]string{"Count": "go_count_byte", "LastIndex": "go_last_index_byte", "Index": "go_index_byte"}[name]
 		return ex{binds: a.binds, code: fmt.Sprintf("(%s %d %s)", fn, sep[0], a.code), typ: basicInts["int"]}
+	case pkg == "strconv" && name == "FormatBool":
+		need(1)
+		a := tr.expr(c.Args[0], env)
+		if a.typ.kind != kBool {
+			gtFail("strconv.FormatBool of a non-boolean")
+		}
+		return ex{binds: a.binds, code: "(go_format_bool " + a.code + ")", typ: tString}
+	case pkg == "strconv" && name == "FormatInt":
+		need(2)
+		base, _, ok := tr.g.constEval(tr.p, tr.f, c.Args[1], -1, tr.isVar(env))
+		if !ok || base.Kind() != constant.Int || !constant.Compare(base, token.EQL, constant.MakeInt64(10)) {
+			gtFail("strconv.FormatInt: only base 10 is in the subset")
+		}
+		a := tr.expr(c.Args[0], env)
+		if a.typ.kind != kInt {
+			gtFail("strconv.FormatInt of a non-integer")
+		}
+		return ex{binds: a.binds, code: "(dec_of_Z " + a.code + ")", typ: tString}
 	case pkg == "strconv" && name == "Itoa":
 		need(1)
 		a := tr.expr(c.Args[0], env)
